@@ -292,3 +292,63 @@ func runPure(hdr Header, c any, src string) CaseResult {
 	res.Sample = map[string]any{"schema": u.concrete(), "verdicts": vec.String()}
 	return res
 }
+
+func init() {
+	families["purelit"] = &Family{Run: runPureLit}
+}
+
+// Family "purelit" (C14): Schema LITERALS (the CASE lines of the codec families PO
+// and RT): Marshal and Resolve must leave the tree - including PropertyOrder,
+// Required, Enum and the other non-schema slices and maps - exactly as it was,
+// and repeated Marshal calls must agree.
+func runPureLit(hdr Header, c any, src string) CaseResult {
+	cm := abs.Obj(c)
+	res := CaseResult{Evals: 1}
+	var s *jsonschema.Schema
+	if sv, ok := cm["s"]; ok {
+		s = schemaGo(sv)
+	} else {
+		props := map[string]*jsonschema.Schema{}
+		for i, n := range abs.Seq(cm["props"]) {
+			props[abs.Str(n.(string))] = &jsonschema.Schema{MinLength: jsonschema.Ptr(i)}
+		}
+		// spare capacity: an in-place edit of the caller's slice would not reallocate
+		order := make([]string, 0, 8)
+		for _, n := range abs.Seq(cm["order"]) {
+			order = append(order, abs.Str(n.(string)))
+		}
+		s = &jsonschema.Schema{Type: "object", Properties: props, PropertyOrder: order}
+	}
+	kb, _ := json.Marshal(c)
+	res.Key = string(kb)
+	before := dump(s)
+	b1, e1 := json.Marshal(s)
+	if d := dump(s); d != before {
+		res.Failures = append(res.Failures, Failure{Kind: "marshal-modifies-schema", Source: src, Abstract: c, Expected: before, Got: d,
+			Detail: "Marshal modified the Schema value it was given"})
+		return res
+	}
+	for i := 0; i < 3; i++ {
+		b2, e2 := json.Marshal(s)
+		res.Evals++
+		if (e1 == nil) != (e2 == nil) || !bytes.Equal(b1, b2) {
+			res.Failures = append(res.Failures, Failure{Kind: "marshal-unstable", Source: src, Abstract: c, Expected: string(b1) + errText(e1), Got: string(b2) + errText(e2),
+				Detail: "marshaling the same Schema value again gave another result"})
+			return res
+		}
+	}
+	s.Resolve(nil)
+	res.Evals++
+	if d := dump(s); d != before {
+		res.Failures = append(res.Failures, Failure{Kind: "resolve-modifies-schema", Source: src, Abstract: c, Expected: before, Got: d,
+			Detail: "Resolve modified the Schema value it was given"})
+		return res
+	}
+	res.Nontrivial = true
+	res.Observed = string(b1)
+	res.Sample = map[string]any{"marshaled": json.RawMessage(b1)}
+	if e1 != nil {
+		res.Sample = map[string]any{"marshal_error": e1.Error()}
+	}
+	return res
+}
